@@ -16,7 +16,7 @@ CLAIMS = {
          "format() of classes documented to create management data is judged against their documentation (DESIGN 8.C03)"),
  "C08": ("exploration", "8.C08", "seeded simulation with byzantine tag models (mutated images, response palettes, tag stops answering at command k)",
          "Seeded exploration: the real activation and NDEF read paths run against simulated tags with random / mutated memory images, every activation-response variant class, palette responders and a tag that goes silent after command k; oracle: nothing raises, result is None or 0<=length<=capacity, bounded command count (budget enforced by the simulated device).",
-         "command bound 4*(read units)+256; responses of length zero are a separate class; CPU-only loops are caught by the per-run wall alarm"),
+         "command bound 4*(read units)+256; responses of length zero are a separate class; CPU-only loops are caught by the per-run CPU-time limit (120 s of process CPU time)"),
  "C12": ("fault_enumeration", "8.C12", "deterministic simulation: real IsoDepInitiator vs ISO 14443-4 PICC model under enumerated per-block fault scripts",
          "For each seeded (4A/4B, FSCI, FWI, frame limits, chaining shapes, S(WTX) plan, APDU) scenario every single-fault script (position x kind) and all/sampled double-fault scripts are executed; the card model counts executions and names each execution in its response, so duplicated, stale, truncated or foreign responses are detected; blocks are measured against FSC; recovery is required within the retry budget the implementation derives.",
          "PICC model = ISO/IEC 14443-4 rules as in DESIGN Appendix A; faults on the S(WTX) exchange itself are only held to the outcome-type clause"),
